@@ -239,6 +239,9 @@ func Diagnose(proj []Task, init Snapshot, steps []Step) map[string]string {
 				justified := has && a.ok && gens
 				switch {
 				case justified:
+				case keysCollide(proj, o.Tid):
+					// another task shares this task's state file: whatever looks wrong here is that
+					set("c04", "shared-state-file:key-collision")
 				case listSince[o.Tid] || (sawListJSON && len(att) == 0):
 					// --list --json ran its (non-dry) check after the last attempt of this task
 					set("c04", "skip-after-listjson:"+t.Method)
@@ -247,11 +250,7 @@ func Diagnose(proj []Task, init Snapshot, steps []Step) map[string]string {
 				case has && a.ok && !gens:
 					set("c04", "skip-generates-missing:"+t.Method)
 				case len(att) == 0:
-					if keysCollide(proj, o.Tid) {
-						set("c04", "skip-never-ran:key-collision:"+t.Method)
-					} else {
-						set("c04", "skip-never-ran:"+t.Method)
-					}
+					set("c04", "skip-never-ran:"+t.Method)
 				default:
 					last := att[len(att)-1]
 					if last.ok {
@@ -270,6 +269,8 @@ func Diagnose(proj []Task, init Snapshot, steps []Step) map[string]string {
 				expect := last.key == key && gens && (len(t.Status) == 0 || stat)
 				ran := st.Res == "ok" || st.Res == "failed" || st.Res == "declined" || st.Res == "killed"
 				switch {
+				case (expect && ran || !expect && st.Res == "skipped") && keysCollide(proj, o.Tid):
+					set("c05", "shared-state-file:key-collision")
 				case expect && ran:
 					l := "rerun-without-change:" + t.Method
 					if last.mode == "force" {
@@ -305,7 +306,8 @@ func Diagnose(proj []Task, init Snapshot, steps []Step) map[string]string {
 					set("c12", o.Mode+":"+d)
 				}
 			}
-			if o.Mode == "listjson" {
+			if o.Mode == "listjson" && strings.Contains(snapDiff(before, st.Snap), "fingerprint-state") {
+				// --list --json wrote fingerprint state
 				sawListJSON = true
 				for i := range proj {
 					listSince[i] = true
@@ -320,10 +322,12 @@ func Diagnose(proj []Task, init Snapshot, steps []Step) map[string]string {
 func snapDiff(a, b Snapshot) string {
 	var kinds []string
 	if fmt.Sprint(a.Cks) != fmt.Sprint(b.Cks) {
-		kinds = append(kinds, "checksum-state")
+		kinds = append(kinds, "fingerprint-state")
 	}
 	if fmt.Sprint(a.Tss) != fmt.Sprint(b.Tss) || fmt.Sprint(a.Tsx) != fmt.Sprint(b.Tsx) {
-		kinds = append(kinds, "timestamp-state")
+		if len(kinds) == 0 {
+			kinds = append(kinds, "fingerprint-state")
+		}
 	}
 	if fmt.Sprint(a.Dirs) != fmt.Sprint(b.Dirs) {
 		kinds = append(kinds, "dir")
